@@ -6,9 +6,14 @@ namespace Polyseed
 
 /-- `utf8_nfkd_lazy`: the normalised string and whether the injected `u8_nfkd` was called.
 `nfkd` is the callback's result on the whole input (NUL-terminated, `< strSize` bytes by its contract). -/
-def lazyNfkd (sgn : Bool) (strSize : Nat) (nfkd : List Nat → List Nat) (s : List Nat) : List Nat × Bool :=
+def lazyNfkd (strSize : Nat) (nfkd : List Nat → List Nat) (s : List Nat) : List Nat × Bool :=
   let pre := s.take (strSize - 1)
-  if pre.any (isNeg sgn) then (nfkd s, true) else (pre, false)
+  if pre.any (isNeg) then (nfkd s, true) else (pre, false)
+
+/-- the inner loop `while (*pos != '\0' && *pos != ' ') ++pos;`: the word and the rest (starting at the space, if any) -/
+def takeWord : List Nat → List Nat × List Nat
+  | [] => ([], [])
+  | c :: cs => if c = 32 then ([], c :: cs) else ((takeWord cs).1.cons c, (takeWord cs).2)
 
 /-- `str_split` with at most `n` more words to take: the tokens stored into `words[]`,
 and whether the `++w; /* too many words */` branch fired. -/
@@ -16,7 +21,7 @@ def splitN : Nat → List Nat → List (List Nat) × Bool
   | 0, s => ([], !s.isEmpty)
   | _ + 1, [] => ([], false)
   | n + 1, c :: cs =>
-    let sp := (c :: cs).span (· != 32)
+    let sp := takeWord (c :: cs)
     let r := splitN n (sp.2.drop 1)
     (sp.1 :: r.1, r.2)
 
